@@ -122,7 +122,14 @@ Section Eqs.
   Proof. reflexivity. Qed.
   Lemma dec_step_list inner j :
     dec_step orc T d (KList inner) j =
-    if has_construct inner then match j with JArr l => option_map PList (map_opt (d inner) l) | _ => None end else Some (PJ j).
+    if has_construct inner then
+      match j with
+      | JArr l => option_map PList (map_opt (d inner) l)
+      | JStr s => option_map PList (map_opt (d inner) (map (fun c => JStr [c]) s))
+      | JObj m => option_map PList (map_opt (d inner) (map (fun kv => JStr (fst kv)) m))
+      | _ => None
+      end
+    else Some (PJ j).
   Proof. reflexivity. Qed.
   Lemma dec_step_union ms j : dec_step orc T d (KUnion ms) j = dec_union d ms j.
   Proof. reflexivity. Qed.
